@@ -55,6 +55,10 @@ class LexTranslator:
             if f == "str" and len(n.args) == 1 and isinstance(n.args[0], ast.Call) and ast.unparse(n.args[0].func) == "int":
                 inner = n.args[0]
                 if len(inner.args) == 2 and isinstance(inner.args[1], ast.Constant) and inner.args[1].value in (16, 2):
+                    import math
+                    bound = sym.env.get("__maxlen")
+                    if not (bound and bound[1] == sym.env["token"] and bound[0] * math.log10(inner.args[1].value) < 4290):
+                        self.fail(n, "str(int(..)) of a token whose length is not bounded below Python's 4300-digit conversion limit")
                     return "(int_str (digits_value %d %s))" % (inner.args[1].value, self.sexpr(inner.args[0], sym))
             if f == "chr" and len(n.args) == 1 and isinstance(n.args[0], ast.Call) and ast.unparse(n.args[0].func) == "int":
                 inner = n.args[0]
@@ -98,9 +102,14 @@ class LexTranslator:
                     return "(mem_z ch %s)" % cps(r.value)
                 if isinstance(op, ast.NotIn):
                     return "(negb (mem_z ch %s))" % cps(r.value)
+            if isinstance(l, ast.Call) and ast.unparse(l) == "len(token)" and isinstance(op, ast.Gt) and isinstance(r, ast.Constant) \
+                    and isinstance(r.value, int):
+                return "(%s <? Z.of_nat (length %s))" % (pk.zlit(r.value), sym.env["token"])
             if isinstance(l, ast.Name) and l.id in ("token", "tempbuf"):
                 if isinstance(op, ast.Eq) and isinstance(r, ast.Constant) and isinstance(r.value, str):
                     return "(str_eqb %s %s)" % (sym.env[l.id], cps(r.value))
+                if isinstance(op, ast.NotEq) and isinstance(r, ast.Constant) and isinstance(r.value, str):
+                    return "(negb (str_eqb %s %s))" % (sym.env[l.id], cps(r.value))
                 if isinstance(op, ast.In) and isinstance(r, ast.Name) and r.id == "KEYWORDS":
                     return "(existsb (str_eqb %s) KEYWORDS)" % sym.env[l.id]
         if isinstance(n, ast.Call):
@@ -124,7 +133,13 @@ class LexTranslator:
         if isinstance(s, ast.If):
             c = self.bexpr(s.test, sym)
             a = self.block(list(s.body) + rest, Sym(sym.env, sym.toks, sym.consumed))
-            b = self.block(list(s.orelse) + rest, Sym(sym.env, sym.toks, sym.consumed))
+            selse = Sym(sym.env, sym.toks, sym.consumed)
+            t = s.test
+            if isinstance(t, ast.Compare) and ast.unparse(t.left) == "len(token)" and isinstance(t.ops[0], ast.Gt) and not s.orelse \
+                    and len(s.body) == 1 and isinstance(s.body[0], ast.Raise):
+                # "if len(token) > K: raise": below, the token has at most K characters
+                selse.env["__maxlen"] = (t.comparators[0].value, sym.env["token"])
+            b = self.block(list(s.orelse) + rest, selse)
             return "(if %s\n then %s\n else %s)" % (c, a, b)
         if isinstance(s, ast.Raise):
             call = s.exc
